@@ -17,6 +17,11 @@
                  "const"  <packet variable> = k            (k: constant of the program)
                  "iadd"   <packet variable> += k           (k: constant of the program)
                  "iaddv"  <packet variable> += other
+                 "reada"  other = <packet variable> + ka   (the value inside arithmetic; other: map variable)
+                 "cmp"    with <packet variable> + ka <rel> <rhs>:  branch = 1   Else:  branch = 2
+                          (the value used as a CONDITION: the only use that leaves the width open;
+                           rhs = the constant kc (rhs = "const") or the other variable (rhs = "other");
+                           ka = 0: the variable is compared directly; branch: 4 bytes at map offset br)
                  "none"   no access, only the markers
           fmt    the struct format of the packet variable, as a sequence of characters
           p      its offset in the packet
@@ -24,6 +29,7 @@
                  of the 32 formats: it may carry a byte order of its own) at offset o of array map 1
                  (okind = "map") or of the packet (okind = "pkt", not overlapping the packet variable)
           k      8-byte word (const, iadd)
+          ka, kc 16-byte two's-complement words (exact integers), rel in gt ge lt le eq ne (reada, cmp)
           guard  "min" (minimumPacketSize = n) or "gt" "ge" "lt" "le" (with packetSize <op> n)
           n      the guard's size
           abr    the marker value of the branch that contains the access (1 body, 2 else)
@@ -63,11 +69,26 @@ Guaranteed == CASE K.guard \in {"min", "ge"} -> K.n        \* bytes certainly pr
                 [] K.guard = "lt" -> K.n
                 [] K.guard = "le" -> K.n + 1
 Max(a, b) == IF a > b THEN a ELSE b
-UsesOther == K.op \in {"read", "write", "iaddv"}
+UsesOther == K.op \in {"read", "reada", "write", "iaddv"} \/ (K.op = "cmp" /\ K.rhs = "other")
+(* exact integers as 16-byte words: the value struct.unpack gives, the sum, the right-hand side *)
+Exact(fmt, v) == IF Signed(fmt) THEN WSext(v, 16) ELSE WZext(v, 16)
+FitsFmt(fmt, x) == IF Signed(fmt) THEN WFitsS(x, Size(fmt)) ELSE WFitsU(x, Size(fmt))
+Lhs16 == WAdd(Exact(K.fmt, Unpack(K.fmt, Old)), K.ka)
+Rhs16 == IF K.rhs = "const" THEN K.kc ELSE Exact(K.ofmt, OtherVal)
 InDomain == /\ IsFmt(K.fmt) /\ IsFmt(K.ofmt)
-            /\ K.op \in {"read", "write", "const", "iadd", "iaddv", "none"}
+            /\ K.op \in {"read", "reada", "cmp", "write", "const", "iadd", "iaddv", "none"}
             /\ K.okind \in {"map", "pkt"}
-            /\ K.op = "read" => K.okind = "map"
+            /\ K.op \in {"read", "reada", "cmp"} => K.okind = "map"
+            (* arithmetic and comparisons are those of exact integers as long as nothing leaves the
+               range of the variable's own format and both sides have the same signedness: a
+               constant an 8-byte variable of that signedness could hold, or a variable of the same
+               signedness (wider questions belong to the expression properties C01 / C03) *)
+            /\ (K.op \in {"reada", "cmp"} /\ PLen >= K.need) => FitsFmt(K.fmt, Lhs16)
+            /\ K.op = "cmp" =>
+                  /\ K.rel \in {"gt", "ge", "lt", "le", "eq", "ne"}
+                  /\ K.rhs \in {"const", "other"}
+                  /\ K.rhs = "const" => (IF Signed(K.fmt) THEN WFitsS(K.kc, 8) ELSE WFitsU(K.kc, 8))
+                  /\ K.rhs = "other" => Signed(K.fmt) = Signed(K.ofmt)
             /\ K.op # "none" =>
                   /\ K.p >= 0 /\ K.need <= Guaranteed
                   /\ K.need = IF UsesOther /\ K.okind = "pkt" THEN Max(PEnd, K.o + OSize) ELSE PEnd
@@ -83,6 +104,8 @@ FArr == fin.m[ArrR]
 MarkW == SubSeq(FArr, K.mark + 1, K.mark + 4)
 Mark == IF MarkW[2] = 0 /\ MarkW[3] = 0 /\ MarkW[4] = 0 THEN MarkW[1] ELSE -1
 FDst == SubSeq(FArr, K.o + 1, K.o + OSize)               \* read: the other variable afterwards
+BrW == SubSeq(FArr, K.br + 1, K.br + 4)
+Branch == IF BrW[2] = 0 /\ BrW[3] = 0 /\ BrW[4] = 0 THEN BrW[1] ELSE -1
 Ran == Mark = K.abr                                   \* the branch with the access was taken
 
 (* ---- the property ---- *)
@@ -114,11 +137,22 @@ NewField == CASE K.op = "write" -> Pack(K.fmt, OtherVal)
               [] K.op = "iaddv" -> Pack(K.fmt, WAdd(Unpack(K.fmt, Old), OtherVal))
 ExpPkt == IF Ran /\ K.op \in {"write", "const", "iadd", "iaddv"} THEN Patch(K.pkt, K.p, NewField) ELSE K.pkt
 (* the value read, stored in the other variable's own format (reduced modulo 256^size if narrower) *)
-ExpDst == IF Ran /\ K.op = "read" THEN Pack(K.ofmt, Unpack(K.fmt, Old)) ELSE OBytes0
+ExpDst == IF Ran /\ K.op = "read" THEN Pack(K.ofmt, Unpack(K.fmt, Old))
+          ELSE IF Ran /\ K.op = "reada" THEN Pack(K.ofmt, WTrunc(Lhs16, 8))
+          ELSE OBytes0
 (* a write stores exactly struct.pack's bytes at p and touches no other packet byte *)
 PacketExact == (Done /\ St = <<"exit">>) => FPkt = ExpPkt
 (* a read yields the value struct.unpack gives for the bytes at p *)
-DestExact == (Done /\ St = <<"exit">> /\ K.op = "read") => FDst = ExpDst
+DestExact == (Done /\ St = <<"exit">> /\ K.op \in {"read", "reada"}) => FDst = ExpDst
+(* a condition on the variable takes the branch the value struct.unpack gives selects *)
+CondHolds == CASE K.rel = "gt" -> WSLt(Rhs16, Lhs16)
+               [] K.rel = "ge" -> WSLe(Rhs16, Lhs16)
+               [] K.rel = "lt" -> WSLt(Lhs16, Rhs16)
+               [] K.rel = "le" -> WSLe(Lhs16, Rhs16)
+               [] K.rel = "eq" -> Lhs16 = Rhs16
+               [] K.rel = "ne" -> Lhs16 # Rhs16
+ExpBranch == IF ~Ran THEN 0 ELSE IF CondHolds THEN 1 ELSE 2
+BranchExact == (Done /\ St = <<"exit">> /\ K.op = "cmp") => Branch = ExpBranch
 
 (* ---- machine = kernel: where the harness could run the same program on the same packet in the
    kernel (BPF_PROG_TEST_RUN), K.kern = <<[r0, pkt, arr]>> is what the kernel left behind ---- *)
@@ -134,6 +168,7 @@ Why == (IF St # <<"exit">> THEN <<"fault">> ELSE <<>>)
        \o (IF St = <<"exit">> /\ ~GuardHolds THEN <<"guard">> ELSE <<>>)
        \o (IF St = <<"exit">> /\ ~PacketExact THEN <<"packet">> ELSE <<>>)
        \o (IF St = <<"exit">> /\ ~DestExact THEN <<"dest">> ELSE <<>>)
+       \o (IF St = <<"exit">> /\ ~BranchExact THEN <<"branch">> ELSE <<>>)
 FieldOf(pkt) == IF K.op # "none" /\ Len(pkt) >= PEnd THEN Slice(pkt, K.p, Size(K.fmt)) ELSE <<>>
 (* the packet holds a negative value at p (flag for classifying failures; from the inputs only) *)
 FieldNeg == K.op # "none" /\ PLen >= PEnd /\ Signed(K.fmt) /\ WIsNeg(Unpack(K.fmt, Old))
@@ -150,6 +185,7 @@ Observe ==
     ELSE PrintT(<<"VERDICT", cid, FALSE, Why, Agree,
                   [ran |-> Ran, mark |-> Mark, len |-> PLen, neg |-> FieldNeg,
                    field |-> FieldOf(FPkt), expfield |-> FieldOf(ExpPkt), others |-> OthersTouched,
-                   dst |-> IF K.op = "read" THEN FDst ELSE <<>>,
-                   expdst |-> IF K.op = "read" THEN ExpDst ELSE <<>>]>>)
+                   dst |-> IF K.op \in {"read", "reada"} THEN FDst ELSE <<>>,
+                   expdst |-> IF K.op \in {"read", "reada"} THEN ExpDst ELSE <<>>,
+                   branch |-> IF K.op = "cmp" THEN <<Branch, ExpBranch>> ELSE <<>>]>>)
 =============================================================================
